@@ -39,7 +39,7 @@ def lons(tier, seed):
 
 def gen_geo(tier, seed):
     lo = lons(tier, seed)
-    for ell in cfg.E9:
+    for ell in cfg.E9 + cfg.TWINS:
         for lat in lats(tier, seed):
             for h in HEIGHTS:
                 yield {'ell': ell, 'lat': lat, 'h': h, 'lons': lo, 'kind': 'float'}
@@ -148,7 +148,7 @@ def gen_cart(tier, seed):
     ps = uniq(ps)
     zs = ZS + ([] if tier == 'quick' else [10.0, 1e5, 1e6, 5e6, 1e7, 3e7])
     azs = AZ + fill(7.0, 359.0, 60.0 if tier == 'quick' else 15.0, seed, 13, include_shift=False)
-    for ell in cfg.E9:
+    for ell in cfg.E9 + cfg.TWINS[:2]:
         for p in ps:
             for z in zs:
                 for sz in (1, -1):
